@@ -12,7 +12,7 @@ LEVEL_NOTE = [
     "A8 CPython recursion limit: inputs nested deeper than ~1000 levels are outside the generated families",
 ]
 PARTIAL = [
-    "C05_pipeline_partial: rule-level totality is an assumption for every rule (none ported yet); 5 crash sites are listed in known_findings.json",
+    "C05_pipeline_partial: rule-level totality is an assumption for every rule (none ported yet); it is searched, and the 13 crash/hang sites the search found were repaired in /repo (known_findings.json: fixed)",
 ]
 
 
